@@ -114,6 +114,7 @@ type Exec struct {
 	mapChoices                      int
 	lastFn                          *ssa.Function
 	usedThreads                     bool
+	panicStack                      string
 	pending                         []pendingAssert
 	noMerge                         bool
 	threads                         *threadState
@@ -599,6 +600,9 @@ func (w *Worker) runPath(it *workItem) (res pathResult) {
 			res = ex.panicViolation(panicMessage(ex, p.v))
 		case runtimeErr:
 			res = ex.panicViolation("runtime error: " + p.msg)
+			if res.viol != nil && ex.panicStack != "" {
+				res.viol.Stack = ex.panicStack
+			}
 		default:
 			res.kind = outEngineError
 			res.msg = fmt.Sprintf("interpreter crash: %v\n%s", r, debug.Stack())
